@@ -79,6 +79,7 @@ struct GitSite {
     line: usize,
     var: Option<String>,
     args: Vec<Option<String>>, // Some(literal) / None = dynamic
+    arg_cond: Vec<bool>,       // the argument is added under a condition (an enclosing `if`/match arm the command itself is not under)
     stdin_piped: bool,
     stdout_piped: bool,
     stderr: &'static str,   // dflt (inherited) | quiet (null/inherit, possibly chosen by an `if`) | piped | dyn (anything else)
@@ -171,14 +172,14 @@ impl V {
     fn push_event(&mut self, ev: Ev) {
         self.events.entry((self.file.clone(), self.func.clone())).or_default().push(ev);
     }
-    fn apply_builder_call(site: &mut GitSite, m: &ExprMethodCall, name: &str) {
+    fn apply_builder_call(site: &mut GitSite, m: &ExprMethodCall, name: &str, cond: bool) {
         match name {
-            "arg" => { if let Some(a) = m.args.first() { site.args.push(lit_str(a)); } }
+            "arg" => { if let Some(a) = m.args.first() { site.args.push(lit_str(a)); site.arg_cond.push(cond); } }
             "args" => {
                 if let Some(a) = m.args.first() {
                     let inner = match a { Expr::Reference(r) => &*r.expr, x => x };
-                    if let Expr::Array(arr) = inner { for el in &arr.elems { site.args.push(lit_str(el)); } }
-                    else { site.args.push(None); }
+                    if let Expr::Array(arr) = inner { for el in &arr.elems { site.args.push(lit_str(el)); site.arg_cond.push(cond); } }
+                    else { site.args.push(None); site.arg_cond.push(cond); }
                 }
             }
             "stdin" | "stdout" => {
@@ -198,10 +199,10 @@ impl V {
         let (base, calls) = chain(e);
         if is_command_new_git(base) {
             let line = match base { Expr::Call(c) => c.paren_token.span.open().start().line, _ => 0 };
-            let mut site = GitSite { file: self.file.clone(), func: self.func.clone(), line, var: bind, args: vec![], stdin_piped: false,
+            let mut site = GitSite { file: self.file.clone(), func: self.func.clone(), line, var: bind, args: vec![], arg_cond: vec![], stdin_piped: false,
                 stdout_piped: false, stderr: "dflt", via_output: false, wrapper: None, guards: self.guards.clone(), seq: self.seq, uses_thread: self.fn_uses_thread };
             self.seq += 1;
-            for (m, name) in &calls { V::apply_builder_call(&mut site, m, name); }
+            for (m, name) in &calls { V::apply_builder_call(&mut site, m, name, false); }
             // `.output()` pipes stdout (and stderr) and drains them concurrently: not a hand-rolled protocol
             self.sites.push(site);
             let idx = self.sites.len() - 1;
@@ -213,7 +214,8 @@ impl V {
             let name = p.to_token_stream().to_string();
             if let Some(pos) = self.sites.iter().rposition(|s| s.func == self.func && s.file == self.file && s.var.as_deref() == Some(name.as_str())) {
                 let mut site = self.sites[pos].clone();
-                for (m, mname) in &calls { V::apply_builder_call(&mut site, m, mname); }
+                let cond = self.guards.len() > site.guards.len();
+                for (m, mname) in &calls { V::apply_builder_call(&mut site, m, mname, cond); }
                 self.sites[pos] = site;
             }
         }
@@ -457,7 +459,7 @@ impl<'ast> Visit<'ast> for V {
                 let inner = match a { Expr::Reference(r) => &*r.expr, x => x };
                 if let Expr::Array(arr) = inner {
                     let lits: Vec<Option<String>> = arr.elems.iter().map(lit_str).collect();
-                    let site = GitSite { file: self.file.clone(), func: self.func.clone(), line, var: None, args: lits, stdin_piped: false,
+                    let site = GitSite { file: self.file.clone(), func: self.func.clone(), line, var: None, arg_cond: vec![false; lits.len()], args: lits, stdin_piped: false,
                         stdout_piped: streamed, stderr: "dflt", via_output: false, wrapper: Some(wname.clone()), guards: self.guards.clone(), seq: self.seq, uses_thread: self.fn_uses_thread };
                     self.seq += 1;
                     self.sites.push(site);
@@ -633,6 +635,20 @@ fn main() {
     out.push_str("/-- (caller file, callee file): a function of the second module is called by path or through a `use` import from the first (method calls on foreign types are not followed) -/\ndef moduleCalls : List (SrcFile × SrcFile) := [\n");
     out.push_str(&v.module_calls.iter().map(|(a, b)| format!("  (.{}, .{})", file_ctor(a), file_ctor(b))).collect::<Vec<_>>().join(",\n"));
     out.push_str("\n]\n\n");
+    // the exporter and importer command lines of pipes.rs: every argument (hash of the literal, 0 = dynamic) and whether it is conditional
+    out.push_str("/-- pipes.rs: (command, FNV-1a of the literal argument or 0 for a computed one, added under a condition?) in order -/\ndef pipeArgs : List (GitSub × Nat × Bool) := [\n");
+    let mut rows = Vec::new();
+    let mut names = Vec::new();
+    for st in v.sites.iter().filter(|s| s.file == "pipes") {
+        let sub = st.args.iter().flatten().find_map(|l| sub_ctor(l)).unwrap_or("other");
+        if sub != "fastExport" && sub != "fastImport" { continue; }
+        for (a, c) in st.args.iter().zip(st.arg_cond.iter()) {
+            rows.push(format!("  (.{sub}, {}, {})", a.as_ref().map_or(0, |l| fnv1a(l)), c));
+            names.push(format!("{}{}", a.clone().unwrap_or_else(|| "<dyn>".into()), if *c { "?" } else { "" }));
+        }
+    }
+    out.push_str(&rows.join(",\n"));
+    out.push_str(&format!("\n]\n\n/- pipeArgs: {}\n-/\n\n", names.join(" ")));
     // integer constants the model mirrors, and the built-in secret patterns (name order + hash of regex source and capture group)
     let cname = |f: &str, n: &str| -> Option<&'static str> { Some(match (f, n) {
         ("detect", "MAX_DETECTED_VALUES") => "maxDetectedValues", ("detect", "MAX_SCAN_BLOB_BYTES") => "maxScanBlobBytes",
